@@ -227,7 +227,8 @@ theorem parseRecover_inv (H : HashFam) (cfg : Protocol) (orc : Oracles) (req : J
     ∃ c sd, decodeCommon cfg req true = some c ∧ parseSignedDataForRecover H cfg c.signedData = some sd ∧
       (batch = true ∨ (orc.anchorOriginOK sd.anchorOrigin = true ∧
         orc.anchorTimeOK sd.anchorFrom (anchorUntil cfg sd.anchorFrom sd.anchorUntil) = true ∧
-        validateDelta cfg orc c.delta = true ∧ (c.delta.getD default).updateCommitment ≠ sd.recoveryCommitment)) ∧
+        validateDelta cfg orc c.delta = true ∧ (c.delta.getD default).updateCommitment ≠ sd.recoveryCommitment ∧
+        keyFresh H sd.key (c.delta.getD default).updateCommitment = true)) ∧
       revealMatches H sd.key c.revealValue = true ∧
       p = { type := .recover, uniqueSuffix := c.didSuffix, delta := c.delta, signedData := c.signedData,
             revealValue := c.revealValue, anchorOrigin := sd.anchorOrigin } := by
@@ -242,7 +243,8 @@ theorem parseRecover_inv (H : HashFam) (cfg : Protocol) (orc : Oracles) (req : J
       simp only [hs, Option.bind_some] at h
       cases hg1 : guard' (batch || (orc.anchorOriginOK sd.anchorOrigin &&
           orc.anchorTimeOK sd.anchorFrom (anchorUntil cfg sd.anchorFrom sd.anchorUntil) && validateDelta cfg orc c.delta &&
-          (c.delta.getD default).updateCommitment != sd.recoveryCommitment)) with
+          (c.delta.getD default).updateCommitment != sd.recoveryCommitment &&
+          keyFresh H sd.key (c.delta.getD default).updateCommitment)) with
       | none => simp [hg1] at h
       | some u1 =>
         simp only [hg1, Option.bind_some] at h
@@ -256,7 +258,7 @@ theorem parseRecover_inv (H : HashFam) (cfg : Protocol) (orc : Oracles) (req : J
           simp only [Bool.or_eq_true, Bool.and_eq_true, bne_iff_ne, ne_eq] at e1
           rcases e1 with e | e
           · left; exact e
-          · right; exact ⟨e.1.1.1, e.1.1.2, e.1.2, e.2⟩
+          · right; exact ⟨e.1.1.1.1, e.1.1.1.2, e.1.1.2, e.1.2, e.2⟩
 
 theorem parseDeactivate_inv (H : HashFam) (cfg : Protocol) (orc : Oracles) (req : Json) (batch : Bool) (p : ParsedOp)
     (h : parseDeactivate H cfg orc req batch = some p) :
